@@ -334,7 +334,21 @@ def gen(rng, tier):
         out.append(Case("pes.aligned " + hx(pk), kind="malformed-random-packet-c05", theorem="C11_pkt_pes_header_no_panic", proj=proj_returns,
                         nontrivial=False))
         out.append(Case("pes.pkt " + hx(pk), kind="random-packet", theorem="C11_pkt_pes_header_iff", proj=proj_pkt))
+    crosscheck_pkt(out)
     return out
+
+
+def crosscheck_pkt(cases):
+    """expected_pkt (Python) against the Coq-extracted Spec (spec.pkt) on every pes.pkt case of this run"""
+    lines = [c.line for c in cases if c.line.startswith("pes.pkt ")]
+    got = vlib.run_model(["spec.pkt" + l[len("pes.pkt"):] for l in lines])
+    for l, g in zip(lines, got):
+        g = g if g.startswith("[0") else "err"
+        if l not in EXPECT:
+            EXPECT[l] = g          # random packets: the requirement comes from the Coq Spec alone
+        elif g != EXPECT[l]:
+            print("ERROR C11 generator: Spec/PesSpec.v and the Python expectation disagree on %s: %s vs %s" % (l[:80], g[:80], EXPECT[l][:80]))
+            sys.exit(2)
 
 
 def oracle(c, real, model):
